@@ -14,6 +14,10 @@ def aplEval (tag : Nat) : Except String (List Cell → ApplyRes) :=
       | _ => .slice xs)
   | 11 => pure (fun xs => .slice (xs ++ [.int .int 7]))
   | 12 => pure (fun xs => .slice xs.dropLast)
+  -- a row validator: an `error` VALUE for rows starting with a negative int (a single value like any other), else the row
+  | 13 => pure (fun xs => match xs.headD .nil with
+      | .int .int v => if v < 0 then .scalar (unknownCell "*errors.errorString".toUTF8.toList) else .slice xs
+      | _ => .slice xs)
   | n => (applyFnOf n).map (·.eval)
 
 def checkApl : P String := do
